@@ -750,8 +750,72 @@ for _op in ("Add", "Sub", "Cmp", "And"):
                        ("rm32_imm8", "C02_alu_rm32_imm"), ("rm32_imm32", "C02_alu_rm32_imm"), ("EAX_imm32", "C02_alu_rm32_imm")):
         REFINEMENT_THEOREMS["%s_%s" % (_op, _sfx)] = ("C02", _thm)
 for _op in ("Inc", "Dec", "Neg", "Not"):
-    REFINEMENT_THEOREMS["%s_rm64" % _op] = ("C02", "C02_unary_rm64")
-    REFINEMENT_THEOREMS["%s_rm32" % _op] = ("C02", "C02_unary_rm32")
+    for _w in (64, 32, 16, 8):
+        REFINEMENT_THEOREMS["%s_rm%d" % (_op, _w)] = ("C02", "C02_unary_rm%d" % _w)
+for _w, _imms, _acc in ((16, ("rm16_imm8", "rm16_imm16"), "AX_imm16"), (8, ("rm8_imm8_82", "rm8_imm8"), "AL_imm8")):
+    for _op in ("Add", "Sub", "Cmp", "And"):
+        REFINEMENT_THEOREMS["%s_r%d_rm%d" % (_op, _w, _w)] = ("C02", "C02_alu_r%d_rm%d" % (_w, _w))
+        REFINEMENT_THEOREMS["%s_rm%d_r%d" % (_op, _w, _w)] = ("C02", "C02_alu_rm%d_r%d" % (_w, _w))
+        for _sfx in _imms + (_acc,):
+            REFINEMENT_THEOREMS["%s_%s" % (_op, _sfx)] = ("C02", "C02_alu_rm%d_imm" % _w)
+    REFINEMENT_THEOREMS["Xor_r%d_rm%d" % (_w, _w)] = ("C02", "C02_alu_r%d_rm%d" % (_w, _w))
+    REFINEMENT_THEOREMS["Test_rm%d_r%d" % (_w, _w)] = ("C02", "C02_test_rm%d_r%d" % (_w, _w))
+    for _sfx in _imms + (_acc,):
+        REFINEMENT_THEOREMS["Xor_%s" % _sfx] = ("C02", "C02_xor_test_imm%d" % _w)
+    REFINEMENT_THEOREMS["Test_%s" % _imms[1]] = ("C02", "C02_xor_test_imm%d" % _w)
+    REFINEMENT_THEOREMS["Test_%s" % _acc] = ("C02", "C02_xor_test_imm%d" % _w)
+    REFINEMENT_THEOREMS["Mov_r%d_rm%d" % (_w, _w)] = ("C01", "C01_mov_cmov_16_8")
+    REFINEMENT_THEOREMS["Mov_r%d_imm%d" % (_w, _w)] = ("C01", "C01_mov_reg_imm_16_8")
+    REFINEMENT_THEOREMS["Mov_rm%d_imm%d" % (_w, _w)] = ("C01", "C01_mov_reg_imm_16_8")
+for _cc in ("Cmovae", "Cmove", "Cmovne"):
+    REFINEMENT_THEOREMS["%s_r16_rm16" % _cc] = ("C01", "C01_mov_cmov_16_8")
+REFINEMENT_THEOREMS.update({
+    "Lea_r32_m": ("C01", "C01_lea_r32"), "Mov_r64_imm64": ("C01", "C01_mov_reg_imm"), "Mov_rm64_imm32": ("C01", "C01_mov_reg_imm"),
+    "Mov_r32_imm32": ("C01", "C01_mov_reg_imm"), "Mov_rm32_imm32": ("C01", "C01_mov_reg_imm"),
+    "Movzx_r32_rm16": ("C01", "C01_movzx_rm16"), "Movzx_r64_rm16": ("C01", "C01_movzx_rm16"),
+    "Setb_rm8": ("C01", "C01_setcc_r8"), "Sete_rm8": ("C01", "C01_setcc_r8"), "Setne_rm8": ("C01", "C01_setcc_r8"),
+    "Xor_rm64_imm8": ("C02", "C02_xor_imm"), "Xor_rm64_imm32": ("C02", "C02_xor_imm"), "Xor_RAX_imm32": ("C02", "C02_xor_imm"),
+    "Xor_rm32_imm8": ("C02", "C02_xor_imm"), "Xor_rm32_imm32": ("C02", "C02_xor_imm"), "Xor_EAX_imm32": ("C02", "C02_xor_imm"),
+    "Test_rm64_imm32": ("C02", "C02_test_imm"), "Test_RAX_imm32": ("C02", "C02_test_imm"),
+    "Test_rm32_imm32": ("C02", "C02_test_imm"), "Test_EAX_imm32": ("C02", "C02_test_imm"),
+    "Pushq_imm32": ("C04", "C04_push_imm"), "Pushq_imm8": ("C04", "C04_push_imm"),
+    "Div_rm32": ("C06", "C06_div_rm32"), "Idiv_rm32": ("C06", "C06_idiv_rm32"),
+    "Shl_rm64_CL": ("C02", "C02_shift_rm64"), "Shr_rm64_CL": ("C02", "C02_shift_rm64"),
+    "Shl_rm64_imm8": ("C02", "C02_shift_rm64"), "Shr_rm64_imm8": ("C02", "C02_shift_rm64"),
+    "Shl_rm32_CL": ("C02", "C02_shift_rm32"), "Shr_rm32_CL": ("C02", "C02_shift_rm32"),
+    "Shl_rm32_imm8": ("C02", "C02_shift_rm32"), "Shr_rm32_imm8": ("C02", "C02_shift_rm32"),
+})
+
+
+# second batch: ADC (32/16/8, immediates), MOV/XOR stores at 32/16/8, shifts at 16/8 and the one-bit encodings,
+# multiplication, DIV at 16/8, the 16-bit stack forms
+for _w, _acc, _imm in ((32, "EAX", 32), (16, "AX", 16), (8, "AL", 8)):
+    _t = "C02_adc_%d" % _w
+    REFINEMENT_THEOREMS["Adc_r%d_rm%d" % (_w, _w)] = ("C02", _t)
+    REFINEMENT_THEOREMS["Adc_rm%d_r%d" % (_w, _w)] = ("C02", _t)
+    _ti = "C02_adc_imm32" if _w == 32 else _t
+    REFINEMENT_THEOREMS["Adc_rm%d_imm%d" % (_w, _imm)] = ("C02", _ti)
+    REFINEMENT_THEOREMS["Adc_%s_imm%d" % (_acc, _imm)] = ("C02", _ti)
+    REFINEMENT_THEOREMS["Mov_rm%d_r%d" % (_w, _w)] = ("C01", "C01_mov_rm%d_r%d" % (_w, _w))
+    REFINEMENT_THEOREMS["Xor_rm%d_r%d" % (_w, _w)] = ("C02", "C02_xor_rm_r_32_16_8")
+REFINEMENT_THEOREMS["Adc_rm64_imm32"] = ("C02", "C02_adc_imm32")
+REFINEMENT_THEOREMS["Adc_RAX_imm32"] = ("C02", "C02_adc_imm32")
+for _w in (64, 32, 16, 8):
+    for _d in ("Shl", "Shr"):
+        REFINEMENT_THEOREMS["%s_rm%d_1" % (_d, _w)] = ("C02", "C02_shift_rm%d_1" % _w)
+        if _w in (16, 8):
+            REFINEMENT_THEOREMS["%s_rm%d_CL" % (_d, _w)] = ("C02", "C02_shift_rm%d" % _w)
+            REFINEMENT_THEOREMS["%s_rm%d_imm8" % (_d, _w)] = ("C02", "C02_shift_rm%d" % _w)
+    REFINEMENT_THEOREMS["Imul_rm%d" % _w] = ("C02", "C02_mul_imul_one_operand")
+    REFINEMENT_THEOREMS["Mul_rm%d" % _w] = ("C02", "C02_mul_imul_one_operand")
+for _w, _f in ((64, 32), (32, 32), (16, 16)):
+    REFINEMENT_THEOREMS["Imul_r%d_rm%d" % (_w, _w)] = ("C02", "C02_imul_two_operand")
+    REFINEMENT_THEOREMS["Imul_r%d_rm%d_imm8" % (_w, _w)] = ("C02", "C02_imul_three_operand")
+    REFINEMENT_THEOREMS["Imul_r%d_rm%d_imm%d" % (_w, _w, _f)] = ("C02", "C02_imul_three_operand")
+REFINEMENT_THEOREMS.update({
+    "Div_rm16": ("C06", "C06_div_rm16"), "Div_rm8": ("C06", "C06_div_rm8"),
+    "Push_r16": ("C04", "C04_push_r16"), "Pop_r16": ("C04", "C04_pop_r16"), "Push_imm16": ("C04", "C04_push_imm16"),
+})
 
 
 def refined_forms():
@@ -933,7 +997,8 @@ def c03(tier, seed, **kw):
 
 @prop("C04")
 def c04(tier, seed, **kw):
-    return instr_check("C04", tier, seed)
+    # deterministic stack-edge sweep: every stack form with RSP at each distance from the ends of the stack area
+    return instr_check("C04", tier, seed, extra_cases=instr_gen.generate_stack_sweep(harnesses()["release"], seed + 4))
 
 
 @prop("C06")
